@@ -42,6 +42,27 @@ class ShortReadStream:
         return True
 
 
+class CallerStreamError(OSError):
+    """Raised by a FailingStream: a failure on the caller's side of a write call."""
+
+
+class FailingStream(ShortReadStream):
+    """A stream that delivers `fail_at` bytes and then raises (the caller's file, socket, ... broke)."""
+
+    def __init__(self, data: bytes, fail_at: int, step: int):
+        super().__init__(data, step)
+        self._fail_at = fail_at
+
+    def read(self, size=-1):
+        pos = self._bio.tell()
+        if pos >= self._fail_at:
+            raise CallerStreamError(5, 'input stream failed (caller side)')
+        room = self._fail_at - pos
+        if size is None or size < 0:
+            size = room
+        return self._bio.read(min(size, self._step, room))
+
+
 class RecordingCallback:
     """Progress callback that records the protocol."""
 
@@ -327,6 +348,75 @@ class World:  # pylint: disable=too-many-instance-attributes
         for key, data in zip(rop['keys'], datas):
             self.model[key] = data
         return list(keys)
+
+    # ------------------------------------------------------------------ a write call whose input stream fails
+    def r_addfail(self, op):
+        idx = (op['n'] or [op['a']])[:4]
+        datas = [self.content(i) for i in idx]
+        flags = op['f']
+        return {
+            'datas': datas,
+            'keys': [digest(self.hash_type, d) for d in datas],
+            'compress': bool(flags & 1),
+            'no_holes': bool(flags & 2),
+            'read_twice': bool(flags & 4),
+            'do_fsync': not flags & 16,
+            'retry': bool(flags & 8),
+            'loose': op['b'] % 4 == 0,
+            'which': op['b'] // 4 % len(datas),
+            'frac': op['b'] // 16 % 5,  # the stream fails after 0, 1/4, 1/2, 3/4 or all-but-nothing of its bytes
+            'short_step': 1 + op['a'] * 37 % 5000,
+        }
+
+    def x_addfail(self, rop):
+        """The call must raise the caller's own exception; what it stored before that is then read from the disk (each
+        object of the batch is either stored completely or not at all) and the history goes on on the same handle."""
+        datas = rop['datas']
+        which = rop['which']
+        fail_at = len(datas[which]) * rop['frac'] // 4
+        streams = [
+            FailingStream(d, fail_at, rop['short_step']) if i == which else io.BytesIO(d) for i, d in enumerate(datas)
+        ]
+        raised = None
+        try:
+            if rop['loose']:
+                got = self.c.add_streamed_object(streams[which])
+                batch = [which]
+            else:
+                got = self.c.add_streamed_objects_to_pack(
+                    streams, compress=rop['compress'], no_holes=rop['no_holes'], no_holes_read_twice=rop['read_twice'],
+                    do_fsync=rop['do_fsync'],
+                )
+                batch = list(range(len(datas)))
+        except CallerStreamError as exc:
+            raised = exc
+            batch = [which] if rop['loose'] else list(range(len(datas)))
+        if raised is None:
+            raise self.viol('failing-stream-ignored', f'the write call returned {got!r} although its input stream raised')
+        raw = self.raw()
+        stored = raw.keys()
+        for i in batch:
+            if rop['keys'][i] in stored:
+                self.model[rop['keys'][i]] = datas[i]
+        self.flags.add('failed-write')
+        out = {'raised': type(raised).__name__, 'stored': sorted(k[:10] for k in stored if k in rop['keys'])}
+        if rop['retry']:
+            # what a caller does next: the same call again, with healthy streams, on the same handle
+            if rop['loose']:
+                keys = [self.c.add_streamed_object(io.BytesIO(datas[which]))]
+            else:
+                keys = self.c.add_streamed_objects_to_pack(
+                    [io.BytesIO(d) for d in datas], compress=rop['compress'], no_holes=rop['no_holes'],
+                    no_holes_read_twice=rop['read_twice'], do_fsync=rop['do_fsync'],
+                )
+            want = [rop['keys'][i] for i in batch]
+            if list(keys) != want:
+                raise self.viol('wrong-key:retry', f'retry after a failed write returned {keys}, expected {want}')
+            for i in batch:
+                self.model[rop['keys'][i]] = datas[i]
+            self.flags.add('retry-after-failed-write')
+            out['retried'] = True
+        return out
 
     def r_addpack_off(self, op):
         """Direct-to-pack from streams that are NOT positioned at zero (the caller consumed a header). Whatever the library
